@@ -299,6 +299,31 @@ add_artificial_parameters(Matrix<PIP_Tree_Node::Row>& context,
   space_dim += num_art_params;
 }
 
+// Add to `context' the constraints defining the artificial parameters
+// in `aps' (whose columns are already there): if parameter q, having
+// space dimension first_ap_dim + k, is defined as `expr div d', these are
+//   expr - d*q >= 0   and   expr - d*q <= d - 1.
+void
+add_artificial_parameter_definitions(
+    Matrix<PIP_Tree_Node::Row>& context,
+    const Variables_Set& params,
+    const dimension_type first_ap_dim,
+    const PIP_Tree_Node::Artificial_Parameter_Sequence& aps) {
+  if (aps.empty()) {
+    return;
+  }
+  Constraint_System cs;
+  for (dimension_type k = 0; k < aps.size(); ++k) {
+    const PIP_Tree_Node::Artificial_Parameter& ap = aps[k];
+    Coefficient_traits::const_reference denom = ap.denominator();
+    Linear_Expression e(ap);
+    sub_mul_assign(e, denom, Variable(first_ap_dim + k));
+    cs.insert(e >= 0);
+    cs.insert(e <= denom - 1);
+  }
+  merge_assign(context, cs, params);
+}
+
 /* Compares two columns lexicographically in a revised simplex tableau:
   - returns true if
     <CODE>
@@ -1469,8 +1494,11 @@ PIP_Decision_Node::solve(const PIP_Problem& pip,
   Matrix<Row> context_true(context);
   Variables_Set all_params(params);
   const dimension_type num_art_params = artificial_parameters.size();
+  const dimension_type first_ap_dim = space_dim;
   add_artificial_parameters(context_true, all_params, space_dim,
                             num_art_params);
+  add_artificial_parameter_definitions(context_true, all_params,
+                                       first_ap_dim, artificial_parameters);
   merge_assign(context_true, constraints_, all_params);
   const bool has_false_child = (false_child != nullptr);
   const bool has_true_child = (true_child != nullptr);
@@ -2705,7 +2733,10 @@ PIP_Solution_Node::solve(const PIP_Problem& pip,
   Matrix<Row> ctx(context);
   Variables_Set all_params(params);
   const dimension_type num_art_params = artificial_parameters.size();
+  const dimension_type first_ap_dim = space_dim;
   add_artificial_parameters(ctx, all_params, space_dim, num_art_params);
+  add_artificial_parameter_definitions(ctx, all_params,
+                                       first_ap_dim, artificial_parameters);
   merge_assign(ctx, constraints_, all_params);
 
   // If needed, (re-)check feasibility of context.
